@@ -5,6 +5,7 @@ import (
 	"encoding/binary"
 	"fmt"
 	"io"
+	"math"
 	"os"
 	"path/filepath"
 	"strings"
@@ -390,7 +391,7 @@ func TestProp_RoundTrip(t *testing.T) {
 		sawReadAt := false
 		for i := range extras {
 			for k := rapid.IntRange(0, 2).Draw(t, "nextra"); k > 0; k-- {
-				e := extra{op: rapid.SampledFrom([]string{"state", "read", "readat", "clone", "read0"}).Draw(t, "op")}
+				e := extra{op: rapid.SampledFrom([]string{"state", "read", "readat", "clone", "read0", "state", "read", "readat", "clone", "read0", "readhuge"}).Draw(t, "op")}
 				e.a = rapid.IntRange(0, 9).Draw(t, "len")
 				e.off = rapid.IntRange(0, len(data)+2).Draw(t, "off")
 				extras[i] = append(extras[i], e)
@@ -421,6 +422,33 @@ func TestProp_RoundTrip(t *testing.T) {
 				switch e.op {
 				case "state":
 					check("(state)")
+				case "readhuge":
+					// a length taken from corrupt data: far more than there is. The read runs past the end like any other.
+					if o.sequential || wantErr != nil {
+						return
+					}
+					huge := rapid.SampledFrom([]int64{1 << 50, 1 << 62, math.MaxInt64, total - pos + 1, total - pos + 4096}).Draw(t, "huge") // (lengths a failing allocation answers with a panic, not with a fatal out-of-memory error)
+					var b []byte
+					func() {
+						defer func() {
+							if p := recover(); p != nil {
+								t.Fatalf("%s: ReadBytes(%d) at %d/%d panics: %v", backend, huge, pos, total, p)
+							}
+						}()
+						b = r.ReadBytes(huge)
+					}()
+					if int64(len(b)) > total-pos || !bytes.Equal(b, data[pos:pos+int64(len(b))]) {
+						t.Fatalf("%s: ReadBytes(%d) at %d/%d = % x", backend, huge, pos, total, b)
+					}
+					wantErr = io.EOF
+					if r.Err() != wantErr {
+						t.Fatalf("%s: Err() = %v after ReadBytes(%d) at %d/%d, want io.EOF", backend, r.Err(), huge, pos, total)
+					}
+					if r.Pos() < pos || r.Pos() > total {
+						t.Fatalf("%s: Pos() = %d after ReadBytes(%d) at %d/%d", backend, r.Pos(), huge, pos, total)
+					}
+					pos = r.Pos()
+					straddle = true
 				case "read0":
 					n, err := r.Read(nil)
 					if n != 0 || (err != nil && !(err == io.EOF && pos >= total)) {
